@@ -100,6 +100,10 @@ func (p *RunnableProcessor) Process(ctx context.Context, records []opencdc.Recor
 			}
 		}
 
+		// short is set when the plugin returned fewer results than matching
+		// records: the results are then only a prefix and the caller retries
+		// the rest.
+		short, nResults := false, 0
 		if len(keptRecords) > 0 {
 			outRecs = p.proc.Process(ctx, keptRecords)
 			if len(outRecs) > len(keptRecords) {
@@ -107,6 +111,7 @@ func (p *RunnableProcessor) Process(ctx context.Context, records []opencdc.Recor
 					sdk.ErrorRecord{Error: cerrors.New("processor returned more records than input")},
 				}
 			}
+			short, nResults = len(outRecs) < len(keptRecords), len(outRecs)
 		}
 		if err != nil {
 			outRecs = append(outRecs, sdk.ErrorRecord{Error: err})
@@ -120,6 +125,30 @@ func (p *RunnableProcessor) Process(ctx context.Context, records []opencdc.Recor
 			for i, rec := range records {
 				outRecs[i] = sdk.SingleRecord(rec)
 			}
+		} else if len(passthroughRecordIndexes) > 0 && short {
+			// Fewer results than matching records: the index arithmetic
+			// below would slice outRecs out of bounds. Merge only the
+			// aligned prefix - every record up to the first matching
+			// record without a result - so that result i still belongs to
+			// record i; the rest is retried by the caller.
+			// (a condition error appended above belongs to a record behind the
+			// prefix and will recur on the retry, so it is left out)
+			results := outRecs[:nResults]
+			tmp := make([]sdk.ProcessedRecord, 0, len(results)+len(passthroughRecordIndexes))
+			next, pass := 0, 0
+			for i := range records {
+				if pass < len(passthroughRecordIndexes) && passthroughRecordIndexes[pass] == i {
+					tmp = append(tmp, sdk.SingleRecord(records[i]))
+					pass++
+					continue
+				}
+				if next >= len(results) {
+					break
+				}
+				tmp = append(tmp, results[next])
+				next++
+			}
+			outRecs = tmp
 		} else if len(passthroughRecordIndexes) > 0 {
 			tmp := make([]sdk.ProcessedRecord, len(outRecs)+len(passthroughRecordIndexes))
 			prevIndex := -1
